@@ -292,6 +292,16 @@ def build(spec):
         o = Obj(cls, make_counts(M, protein).normalize())
         o.length, o.elements, o.rel = M, [weight_row(i, protein) for i in range(M)], 1e-6
         o.view_rel = 1e-6
+    elif cls == "ScoringMatrix" and spec.get("history") == [["rc"]]:
+        # the object returned by reverse_complement(): rows reversed, columns complemented
+        assert not protein
+        a = alpha(False)
+        comp = {"A": "T", "T": "A", "C": "G", "G": "C", "N": "N"}
+        p = make_pssm(M, False).reverse_complement()
+        o = Obj(cls, p)
+        o.length, o.elements = M, [[score_cell(M - 1 - i, a.index(comp[a[k]])) for k in range(K)] for i in range(M)]
+        o.buffer = True
+        o.category = "reverse complement"
     elif cls == "ScoringMatrix":
         p = make_pssm(M, protein)
         if spec.get("history"):
@@ -453,6 +463,24 @@ def check_view(rep, spec, o, notes=None):
     case = dict(spec, kind="view")
     n_logical = len(o.layouts[0][1]) if o.layouts else 0
     empty = n_logical == 0
+    # a view owns a reference to its exporter while it lives and gives it back when released: three take-and-release
+    # cycles must leave the reference count where it was (a borrowed reference would free the object under its owners)
+    if o.buffer:
+        import sys
+        before = sys.getrefcount(o.obj)
+        held = None
+        for _ in range(3):
+            t = call(memoryview, o.obj)
+            if t[0] != "ok":
+                break
+            held = sys.getrefcount(o.obj)
+            t[1].release()
+            t = None
+        after = sys.getrefcount(o.obj)
+        if held is not None and (after != before or held != before + 1):
+            rep.violation("C18 %s buffer reference count" % o.cls,
+                          "reference count of the exporter %d before, %d while a view is held, %d after three take-and-release cycles (expected n, n+1, n)" % (before, held, after), case)
+            return "bad"
     r = call(memoryview, o.obj)
     if r[0] == "exc":
         if r[1] == "TypeError" and "bytes-like" in r[2] and not o.buffer:
@@ -536,18 +564,18 @@ def check_view(rep, spec, o, notes=None):
 # ----------------------------------------------------------------------------- spaces
 
 INDEX_DESC = ("complete product: every class with __getitem__/__len__ (EncodedSequence x 3 dispatcher arms, CountMatrix, "
-              "WeightMatrix, ScoringMatrix {fresh, used for scoring}, StripedScores x 3 arms x {fresh sequence, sequence already "
+              "WeightMatrix, ScoringMatrix {fresh, used for scoring, returned by reverse_complement()}, StripedScores x 3 arms x {fresh sequence, sequence already "
               "widened by a 33-wide motif, sequence scored with a 2-wide / 2- then 5-wide motif before (look-ahead rows grow)}) x DNA/protein x sequence lengths %s x motif widths %s (0 = empty matrix) x EVERY "
               "integer index in [-len-2, len+1] and +-2**62, +-2**63, -2**63-1; plus len() and list(obj) per object. "
               "One evaluation = one obj[i] / len / list call compared with the model element or IndexError; "
               "state = one object, transition = one call.")
 VIEW_DESC = ("complete product: memoryview(obj) of every buffer-exporting class on freshly built objects - EncodedSequence "
-             "(lengths %s x 3 arms), StripedSequence (same, no look-ahead rows yet), ScoringMatrix and ScoreDistribution "
+             "(lengths %s x 3 arms), StripedSequence (same, no look-ahead rows yet), ScoringMatrix (also the one returned by reverse_complement()) and ScoreDistribution "
              "(widths %s; 0 = empty ScoringMatrix; no distribution is requested from an empty matrix; for DNA widths <= 8 also the distribution of a reverse complement taken after the original was queried, under a strand-asymmetric background), StripedScores (every length x "
              "width x 3 arms x {fresh sequence object, object scored before with narrower motifs (2; 2 then 5), a wider one (33), a copy}; cells of positions >= len stand for no logical element and only have to lie inside the object) - x DNA/protein; "
              "CountMatrix / WeightMatrix probed (no buffer support = nothing to check). One evaluation = one view: "
              "format/itemsize/ndim/shape/strides recorded and EVERY exposed cell compared with the logical element it stands "
-             "for; cells whose offset lies outside the object's memory are counted, not read.")
+             "for; the exporter's reference count is n / n+1 / n before / during / after three take-and-release cycles; cells whose offset lies outside the object's memory are counted, not read.")
 REUSE_DESC = ("explicit-state BFS to fixpoint over reuse histories of ONE real StripedSequence per (alphabet, length %s, arm): "
               "operations {pssm.calculate with motif widths %s, copy}; canonical key (look-ahead rows, modelled row capacity); "
               "after EVERY transition a fresh view is taken and every cell compared (logical contents = the L symbols; "
@@ -574,6 +602,8 @@ def space_index(ctx, rep):
             specs.append({"cls": "ScoringMatrix", "protein": protein, "M": M})
             if M > 0:
                 specs.append({"cls": "ScoringMatrix", "protein": protein, "M": M, "history": [["used"]]})
+                if not protein:
+                    specs.append({"cls": "ScoringMatrix", "protein": False, "M": M, "history": [["rc"]]})
         for L in L_:
             for M in widths(ctx):
                 for arm in ARMS:
@@ -631,6 +661,8 @@ def space_view_fresh(ctx, rep):
             specs.append({"cls": "CountMatrix", "protein": protein, "M": M})
             specs.append({"cls": "WeightMatrix", "protein": protein, "M": M})
             specs.append({"cls": "ScoringMatrix", "protein": protein, "M": M})
+            if M > 0 and not protein:
+                specs.append({"cls": "ScoringMatrix", "protein": False, "M": M, "history": [["rc"]]})
             if M > 0:
                 specs.append({"cls": "ScoreDistribution", "protein": protein, "M": M})
                 if not protein and M <= 8:
